@@ -247,7 +247,35 @@ def run(p, report, tier):
                            exc is not None, detail=("accepted: " + exc) if exc else
                            "missing labels are recognised by a NaN test instead of is_unlabeled(y, missing_label): "
                            "wrong for every other sentinel")
+    # membership / hash based uses of the sentinel are equality tests in disguise (NaN != NaN, and a NaN taken out of an
+    # array is not the NaN object of the sentinel): `missing_label in y`, set.discard(missing_label), np.isin(y, missing_label)
+    n94b = 0
+    for f in p.all_functions():
+        if f.file.startswith("skactiveml/visualization") or f.file.endswith("utils/_label.py") or "/tests/" in f.file:
+            continue
+        for n in ast.walk(f.node):
+            bad = None
+            if isinstance(n, ast.Compare) and len(n.ops) == 1 and isinstance(n.ops[0], (ast.In, ast.NotIn)):
+                l, r = n.left, n.comparators[0]
+                if "missing_label" in ast.unparse(l) and not isinstance(r, (ast.Tuple, ast.List, ast.Set, ast.Dict)) \
+                        and "signature" not in ast.unparse(r) and "params" not in ast.unparse(r) and not isinstance(l, ast.Constant):
+                    bad = n
+            if isinstance(n, ast.Call):
+                cn = (c01.callname(n) or "").split(".")[-1]
+                if cn in ("discard", "remove", "index", "count") and isinstance(n.func, ast.Attribute) and n.args \
+                        and "missing_label" in ast.unparse(n.args[0]) and not isinstance(n.args[0], ast.Constant):
+                    bad = n
+                if cn in ("isin", "in1d", "setdiff1d", "setxor1d", "intersect1d", "union1d") and len(n.args) >= 2 \
+                        and "missing_label" in ast.unparse(n.args[1]):
+                    bad = n
+            if bad is not None:
+                n94b += 1
+                report.add("R9.4", f.qual, f"sentinel matched by equality / hashing in `{norm_stmt(bad, 50)}`", f"{f.file}:{bad.lineno}",
+                           False, detail="`in`, set.discard / remove, list.index / count and np.isin compare with == (or by hash): none of "
+                           "them ever finds a NaN sentinel, while they do find -1, None or a string - the code takes another branch "
+                           "depending on how missing labels are encoded; use is_unlabeled / is_labeled")
     report.analysed["nan_tests_on_label_arrays"] = n94
+    report.analysed["sentinel_membership_tests"] = n94b
     # ---------------- R9.5 encoded labels are compared with class indices, not class values
     n95 = 0
     for f in p.all_functions():
